@@ -429,6 +429,18 @@ def h6(ctx, rid):
                 ctx.bad(rid, key, c.where(), '`%s` takes a blob id from the counter on a path on which the counter has not yet been raised above the ids found in the quarantine directory (%s): an id that is in use there is handed out, and a later quarantine of that blob renames over the preserved file' % (c.name, ', '.join('%s at %s' % (sd.name, sd.where()) for sd in full) or 'no such seeding in this body'))
             else:
                 ctx.ok(rid, key, c.where(), 'dominated by the seeding `%s` that includes the quarantined ids' % dom[0].name)
+    # H6f: the scan of the quarantine directory that feeds the counter is unconditional - it does not depend on ignore_corrupted
+    # or any other mode switch (a run in that mode would hand out the ids of blobs quarantined by earlier runs)
+    for g in prog.fns.values():
+        if g.id != prog.fns[g.id].root or not g.id.endswith('::count_old_corrupted_blobs'):
+            continue
+        modes = [c for x in prog.family(g.id) for c in prog.fns[x].calls if c.bb in prog.fns[x].reachable() and c.name in ('ignore_corrupted', 'allow_duplicates', 'validate_data_during_index_regen')]
+        key = 'quarantine-scan-unconditional|%s' % g.id
+        n += 1
+        if modes:
+            ctx.bad(rid, key, modes[0].where(), 'the scan of the quarantine directory depends on the mode switch `%s`: in that mode the ids of blobs quarantined by earlier runs are not reserved, a new blob reuses one and a later quarantine renames over the preserved file' % modes[0].name)
+        else:
+            ctx.ok(rid, key, g.where(), 'no mode switch in the quarantine scan')
     # H6e: the sources are joined by a maximum - a selector that prefers one source (`or`, `unwrap_or`, `min`, ..) stores an id
     # below one that is in use as soon as the preferred source is the smaller one
     SELECTORS = ('or', 'or_else', 'xor', 'and', 'min', 'unwrap_or', 'unwrap_or_else', 'unwrap_or_default', 'min_by', 'min_by_key', 'zip')
